@@ -259,6 +259,21 @@ class Sym:
     def conjugate(self):
         return self
 
+    def floor(self):
+        return Sym(p_const(_floor(self)))
+
+    def ceil(self):
+        return Sym(p_const(-_floor(-self)))
+
+    def __floor__(self):
+        return _floor(self)
+
+    def __ceil__(self):
+        return -_floor(-self)
+
+    def rint(self):
+        return Sym(p_const(_floor(self + Fraction(1, 2))))
+
     def sqrt(self):
         return _root(self, 1, 2)
 
@@ -828,24 +843,29 @@ class Ctx:
             out[name] = _zval(zv)
         return out
 
-    def nice_model(self, neg, margin=None):
+    def nice_model(self, neg, margin_fn=None):
         """After `pc & neg` was found sat: look for a model that replays robustly on float64 —
-        inputs on a dyadic lattice (exactly representable), bounded, and with a visible margin."""
+        inputs bounded, on a dyadic lattice (exactly representable) where possible, and violating the
+        claim by a visible margin (a ladder of margins is tried, largest first)."""
         best = self.model_of()
-        if self.nonlinear:
-            tries = [margin] if margin is not None else []
-            lattice = False
-        else:
-            tries = ([margin] if margin is not None else []) + [neg]
-            lattice = True
-        for extra in tries:
-            s = z3.Solver() if lattice else z3.Tactic("qfnra-nlsat").solver()
+        attempts = []
+        margins = [Fraction(1, 64), Fraction(1, 2 ** 20)] if margin_fn is not None else []
+        for mg in margins:
+            m = margin_fn(mg)
+            if m is not None:
+                if not self.nonlinear:
+                    attempts.append((m, True))
+                attempts.append((m, False))
+        if not self.nonlinear:
+            attempts.append((None, True))
+        for extra, lattice in attempts:
+            s = z3.Solver() if not self.nonlinear else z3.Tactic("qfnra-nlsat").solver()
             s.set("timeout", 3000)
             for c, _ in self.pc:
                 s.add(c.z3())
             s.add(neg.z3() if isinstance(neg, SymBool) else neg)
-            if extra is not None and extra is not neg:
-                s.add(extra.z3())
+            if extra is not None:
+                s.add(extra.z3() if isinstance(extra, SymBool) else extra)
             for name, v in self.input_vars.items():
                 (idx,), = v.p.keys()
                 zv = self.z3vars[idx]
@@ -853,7 +873,11 @@ class Ctx:
                 if lattice:
                     k = z3.Int("k!" + name)
                     s.add(zv * 16 == z3.ToReal(k))
-            if s.check() == z3.sat:
+            try:
+                r = s.check()
+            except z3.Z3Exception:
+                continue
+            if r == z3.sat:
                 self._last_model = s.model()
                 return self.model_of()
         return best
@@ -1153,7 +1177,7 @@ class Explorer:
             elif r == "sat":
                 st.sat += 1
                 try:
-                    model = ctx.nice_model(neg, self.margin_fn(cond) if self.margin_fn else None)
+                    model = ctx.nice_model(neg, (lambda mg, c=cond: self.margin_fn(c, mg)) if self.margin_fn else None)
                 except z3.Z3Exception:
                     model = ctx.model_of()
                 self.candidates.append((name, model, list(ctx.decisions), info))
